@@ -22,3 +22,13 @@ Print Assumptions C19_all_is_feed.
 Example C19_example :
   yielded (Join [Leaf 1; Join [Join [Leaf 2]; Leaf 3; Leaf 4]; Leaf 5]) 2 = ([1; 2; 3], 0).
 Proof. vm_compute. reflexivity. Qed.
+
+(* count clause: for the error returned by NewMiddleware / Reconfigure, ranging over All yields
+   exactly the individual violations of the configuration (composition with C05) *)
+Require Import Model.Config Spec.ConfigDoc Proofs.ComposeP.
+Theorem C19_validation_errors_yield_the_violations : forall ace ip6 psl c e,
+  new_internal_config ace ip6 psl c = inr e ->
+  yielded e (-1) = (violations ace ip6 psl c, 0%Z) /\
+  length (fst (yielded e (-1))) = length (violations ace ip6 psl c).
+Proof. exact all_yields_the_violations. Qed.
+Print Assumptions C19_validation_errors_yield_the_violations.
